@@ -9,6 +9,7 @@ package main
 
 import (
 	"bytes"
+	"crypto/sha256"
 	"encoding/hex"
 	"fmt"
 	"math/rand"
@@ -209,7 +210,9 @@ type input struct {
 	Kind   string // input class used in signatures, e.g. P-crlf, N-a-x, N-wspad-ge1024, N-c-random
 	Detail string // finer coordinates for the evidence class
 	B      []byte
-	PtrLen int // length of the leading pointer text (0 = none)
+	PtrLen int    // length of the leading pointer text (0 = none)
+	Oid    string // reference-store cases (class P): the pointer names this real object ...
+	Obj    []byte // ... whose bytes are these
 }
 
 // build constructs the input of a case deterministically from r.
@@ -217,11 +220,28 @@ func build(r *rand.Rand, c fcase) input {
 	switch {
 	case strings.HasPrefix(c.Kind, "P-"):
 		p := randPointer(r, c.NExt)
+		var obj []byte
+		if c.Ref != refNone {
+			// the pointer names a real object of c.Size bytes (placed in the reference store by the case)
+			if c.Size <= 0 || c.Kind == "P-empty" {
+				panic("reference-store case needs a non-empty object")
+			}
+			obj = make([]byte, c.Size)
+			r.Read(obj)
+			sum := sha256.Sum256(obj)
+			p.Oid = hex.EncodeToString(sum[:])
+			p.Size = int64(len(obj))
+		}
 		t, pl := spell(strings.TrimPrefix(c.Kind, "P-"), p)
 		if len(t) >= cutoff {
 			panic("class P text too long")
 		}
-		return input{Family: "P", Kind: c.Kind, Detail: fmt.Sprintf("e%d", len(p.Exts)), B: []byte(t), PtrLen: pl}
+		in := input{Family: "P", Kind: c.Kind, Detail: fmt.Sprintf("e%d", len(p.Exts)), B: []byte(t), PtrLen: pl}
+		if obj != nil {
+			in.Oid, in.Obj = p.Oid, obj
+			in.Detail += fmt.Sprintf("-obj%d", len(obj))
+		}
+		return in
 	case strings.HasPrefix(c.Kind, "N-a-"):
 		p := randPointer(r, c.NExt)
 		t, _ := spell(c.Base, p)
